@@ -19,6 +19,22 @@ use rustdoc_ext::GlobalItemId;
 
 use rayon::iter::IntoParallelRefIterator;
 
+/// `$items.into_par_iter().map($f).collect::<Vec<_>>()`.
+#[cfg(not(pavex_verif))]
+macro_rules! par_map_collect {
+    ($items:expr, $f:expr) => {
+        $items.into_par_iter().map($f).collect::<Vec<_>>()
+    };
+}
+/// Verification builds: the same, but under the deterministic scheduler of `verif_sched` when
+/// `VERIF_PAR_SEED` is set.
+#[cfg(pavex_verif)]
+macro_rules! par_map_collect {
+    ($items:expr, $f:expr) => {
+        crate::verif_sched::par_map_or_rayon($items, $f)
+    };
+}
+
 /// The main entrypoint for accessing the documentation of the crates
 /// in a specific `PackageGraph`.
 ///
@@ -221,6 +237,8 @@ impl<I: CrateIndexer> CrateCollection<I> {
         let tracing_span = Span::current();
         let map_op = move |id: PackageId| {
             tracing_span.in_scope(|| {
+                #[cfg(pavex_verif)]
+                crate::verif_sched::yield_point("cache.get");
                 let cache_key = RustdocCacheKey::new(&id, package_graph);
                 match cache.get(&cache_key, package_graph) {
                     Ok(None) => (id, None),
@@ -241,7 +259,7 @@ impl<I: CrateIndexer> CrateCollection<I> {
         let mut to_be_computed = vec![];
 
         use rayon::prelude::{IntoParallelIterator, ParallelIterator};
-        for (package_id, cached) in missing_ids.into_par_iter().map(map_op).collect::<Vec<_>>() {
+        for (package_id, cached) in par_map_collect!(missing_ids, map_op) {
             if let Some(entry) = cached {
                 let (krate, annotations) = self.process_cache_entry(entry, package_id.clone());
                 self.annotated_items
@@ -268,18 +286,15 @@ impl<I: CrateIndexer> CrateCollection<I> {
         // First indexing:
         let indexer = &self.indexer;
         let package_graph = self.package_graph();
-        let indexed_krates = results
-            .into_par_iter()
-            .map(move |(package_id, krate)| {
-                let result = indexer.index_raw(krate, package_id.to_owned());
-                (
-                    package_id,
-                    result.krate,
-                    result.annotations,
-                    result.can_cache_indexes,
-                )
-            })
-            .collect::<Vec<_>>();
+        let indexed_krates = par_map_collect!(results, move |(package_id, krate)| {
+            let result = indexer.index_raw(krate, package_id.to_owned());
+            (
+                package_id,
+                result.krate,
+                result.annotations,
+                result.can_cache_indexes,
+            )
+        });
         // Then conversion to the desired cache format:
         let mut cache_entries: HashMap<_, _> = indexed_krates
             .par_iter()
